@@ -317,7 +317,11 @@ def canon_impl(o):
                 e['par'] = sorted(d['par'])
             out['nodes'][k] = e
         return out
+    graph = {k: {'kids': d['kids'], 'anc': sorted(d['anc']), 'asp': d['asp'],
+                 'fac': d['fac'], 'lvl': d['lvl'], 'ins': d['ins'],
+                 'outs': d['outs']} for k, d in o['at']['nodes'].items()}
     return {
+        'graph': graph,
         'flat': o['flat'], 'roots': o['roots'],
         'v': {k: {'kids': d['kids'], 'par': sorted(d['par']),
                   'anc': sorted(d['anc']), 'fb': sorted(d['fb']),
@@ -329,7 +333,7 @@ def canon_impl(o):
 
 def canon_model(val, t):
     u = t.undotted
-    flat, rts, vn, fbs, at, svt, tt = val
+    flat, rts, vn, fbs, at, svt, tt, gr = val
 
     def opt(x):
         return x[1] if isinstance(x, tuple) and x[0] == 'Some' else x
@@ -352,13 +356,19 @@ def canon_model(val, t):
             todo.extend(d[n]['kids'])
         return {'roots': [u(r) for r in roots],
                 'nodes': {k: v for k, v in d.items() if k in seen}}
+    at_c = tree(at[:2], at[2])
+    graph = {u(x): {'kids': [u(k) for k in ks], 'anc': sorted(u(a) for a in anc),
+                    'asp': asp, 'fac': fac[0].lower(), 'lvl': lv,
+                    'ins': [u(i) for i in ins], 'outs': [u(i) for i in outs]}
+             for x, ks, anc, asp, fac, lv, ins, outs in gr if u(x) in at_c['nodes']}
     return {
+        'graph': graph,
         'flat': [u(x) for x in flat], 'roots': [u(x) for x in rts],
         'v': {u(n): {'kids': [u(k) for k in ks], 'par': sorted(u(p) for p in par),
                      'anc': sorted(u(a) for a in anc), 'fb': sorted(u(f) for f in fb),
                      'lvl': opt(lv)} for n, ks, par, anc, fb, lv in vn},
         'feedbacks': [[u(k), u(v)] for k, v in fbs],
-        'at': tree(at[:2], at[2]), 'svt': tree(svt), 'tt': tree(tt)}
+        'at': at_c, 'svt': tree(svt), 'tt': tree(tt)}
 
 
 def first_diff(a, b, path=''):
@@ -495,7 +505,30 @@ def run_cases(ctx, cases, real_dot=2):
         exprs.append(g)
         tables.append(t)
         idx.append(i)
+    ctx.log('implementation ran on %d cases' % len(impl))
     vals = ctx.coq_eval(['DV.Model.Dag'], exprs, chunk=60, z_scope=False)
+    ctx.log('model ran on %d cases' % len(vals))
+    # the theorems' hypothesis, evaluated on every generated engine with the
+    # topological rank of its descriptor as witness
+    wexprs, widx = [], []
+    for i, t in zip(idx, tables):
+        rank = engine_gen.topo_rank(cases[i][1])
+        if rank is None:
+            continue
+        rk = '[' + ';'.join('([%d;%d],%d)' % (t.id(p), t.id(a), r)
+                            for (p, a), r in sorted(rank.items())) + ']'
+        wexprs.append('(wf_engineb %s %s)%%nat' % (engine_gen.to_gallina(cases[i][1], t)[0], rk))
+        widx.append(i)
+    wvals = ctx.coq_eval(['DV.Model.Dag'], wexprs, chunk=120, z_scope=False)
+    ctx.log('hypotheses evaluated on %d cases' % len(wvals))
+    nwf = 0
+    for i, w in zip(widx, wvals):
+        nwf += bool(w)
+        if w is not cases[i][2]:
+            ctx.broken('hypothesis checker wf_engineb answers %s on case %s (expected %s)'
+                       % (w, cases[i][0], cases[i][2]), json.dumps(cases[i][1])[:3000],
+                       {'source': 'correspondence', 'case': cases[i][0], 'engine': cases[i][1]})
+    ctx.cov['hypotheses_hold_on'] = ctx.cov.get('hypotheses_hold_on', 0) + nwf
     mismatch = None
     for i, t, val in zip(idx, tables, vals):
         a = canon_impl(impl[i])
@@ -561,6 +594,7 @@ def run(ctx):
 
     # ---- proofs --------------------------------------------------------------
     r = ctx.coq_props()
+    ctx.log('proofs: ok=%s' % r['ok'])
     n = 1500 if deep else 240
     cases = gen_cases(ctx, n)
     for c in cases[:3]:
